@@ -68,6 +68,9 @@ type Wire struct {
 
 	wmu  sync.Mutex
 	thrW int
+	zw   *zlib.Writer // reused across frames (write side)
+	zbuf bytes.Buffer
+	zr   io.ReadCloser // reused across frames (read side)
 	// Chunk, when set, is asked for the size of the next TCP write while a frame batch is written
 	// (values < 1 mean "everything that is left").
 	Chunk func() int
@@ -155,17 +158,23 @@ func (w *Wire) readPayload() ([]byte, error) {
 	if ulen < 0 || ulen > 1<<24 {
 		return nil, fmt.Errorf("bad uncompressed length %d", ulen)
 	}
-	zr, err := zlib.NewReader(bytes.NewReader(frame[k:]))
-	if err != nil {
-		return nil, err
+	var err2 error
+	if w.zr == nil {
+		w.zr, err2 = zlib.NewReader(bytes.NewReader(frame[k:]))
+	} else {
+		err2 = w.zr.(zlib.Resetter).Reset(bytes.NewReader(frame[k:]), nil)
+	}
+	if err2 != nil {
+		w.zr = nil
+		return nil, err2
 	}
 	out := make([]byte, ulen)
-	if _, err = io.ReadFull(zr, out); err != nil {
+	if _, err = io.ReadFull(w.zr, out); err != nil {
 		return nil, fmt.Errorf("inflate: %w", err)
 	}
 	// the stream must end exactly here
 	var one [1]byte
-	if m, _ := zr.Read(one[:]); m != 0 {
+	if m, _ := w.zr.Read(one[:]); m != 0 {
 		return nil, errors.New("inflate: more data than announced")
 	}
 	return out, nil
@@ -200,9 +209,23 @@ func (w *Wire) WritePayloads(ps [][]byte) error {
 	defer w.wmu.Unlock()
 	var buf []byte
 	for _, p := range ps {
+		if w.thrW >= 0 && len(p) >= w.thrW {
+			// same bytes as Frame, with a reused zlib writer
+			if w.zw == nil {
+				w.zw = zlib.NewWriter(&w.zbuf)
+			}
+			w.zbuf.Reset()
+			w.zw.Reset(&w.zbuf)
+			_, _ = w.zw.Write(p)
+			_ = w.zw.Close()
+			inner := PutVarInt(make([]byte, 0, w.zbuf.Len()+5), len(p))
+			inner = append(inner, w.zbuf.Bytes()...)
+			buf = append(PutVarInt(buf, len(inner)), inner...)
+			continue
+		}
 		buf = append(buf, Frame(p, w.thrW)...)
 	}
-	_ = w.C.SetWriteDeadline(time.Now().Add(20 * time.Second))
+	_ = w.C.SetWriteDeadline(time.Now().Add(120 * time.Second))
 	for len(buf) > 0 {
 		n := len(buf)
 		if w.Chunk != nil {
